@@ -261,9 +261,34 @@ func c03seqGen(g *hx.Gen) {
 		case 7, 8: // the FASTQ family
 			c03Emit(g, true, c03Tmpl(g), c03FastqFamily(g))
 		case 9: // a valid file read by the other reader, or garbage with very long lines
-			if g.Chance(0.7) {
+			if g.Chance(0.5) {
 				data, fq, _ := c03Valid(g, true)
 				c03Emit(g, !fq, c03Tmpl(g), data)
+			} else if g.Chance(0.6) {
+				// an unterminated last line of exactly k*4096 bytes (ReadLine delivers it as
+				// isPrefix fragments and then io.EOF), after 0..3 lines that put the reader
+				// in each of its states; sometimes a CR sits on a fragment boundary
+				var b bytes.Buffer
+				fq := g.Chance(0.6)
+				pre := [][]string{{}, {">h"}, {">h", "acgt"}, {"acgt"}}
+				if fq {
+					pre = [][]string{{}, {"@h"}, {"@h", "acgt"}, {"@h", "acgt", "+"}, {"@h", "+"}, {"@h", "acgt", "+h"}}
+				}
+				for _, l := range pre[g.Intn(len(pre))] {
+					b.WriteString(l)
+					b.WriteString(pickS(g, "\n", "\r\n"))
+				}
+				n := g.Pick(4096, 4096, 8192, 12288) + g.Pick(0, 0, 0, 1, -1, 4095)
+				last := g.Letters("acgtIII!", n)
+				last[0] = pickS(g, ">", "@", "+", "a", "I", " ")[0]
+				if g.Chance(0.3) {
+					last[g.Pick(4095, 4094, 4096, n-1)%n] = '\r'
+				}
+				if g.Chance(0.2) {
+					last[n-1] = byte(g.Pick(' ', '\t', '\r', 0xa0))
+				}
+				b.Write(last)
+				c03Emit(g, fq, c03Tmpl(g), b.Bytes())
 			} else {
 				var b bytes.Buffer
 				for i := g.Pick(1, 2, 3); i > 0; i-- {
